@@ -90,13 +90,16 @@ def run_ops(desc):
     n, d = int(rng.randint(5, 13)), 2
     X = np.round(rng.randn(n, d), 3)
     y = rng.randint(0, 3, n).astype(float)
-    y[rng.rand(n) < 0.4] = np.nan
+    # every third case represents missing labels by a reserved number instead of NaN
+    ml = -1.0 if (desc["seed"] >> 5) % 3 == 0 else np.nan
+    y[rng.rand(n) < 0.4] = ml
     sw = np.round(rng.rand(n) + 0.1, 2) if desc["weights"] else None
     native_pf = kind.endswith("_pf")
     base = _base(kind)
+    base.set_params(missing_label=ml)
     speed = kind.startswith("pwc_speed")
     w = IndexClassifierWrapper(clone(base), X, y, sw, ignore_partial_fit=not native_pf, enforce_unique_samples=eus,
-                               use_speed_up=speed)
+                               use_speed_up=speed, missing_label=ml)
     if speed:
         w.precompute(np.arange(n), np.arange(n))
     cur = basem = None          # multisets: lists of (idx, label, weight)
@@ -119,7 +122,7 @@ def run_ops(desc):
         override = rng.rand() < 0.5
         yy = rng.randint(0, 3, len(idx)).astype(float) if override else None
         if yy is not None and rng.rand() < 0.2:
-            yy[rng.randint(len(yy))] = np.nan
+            yy[rng.randint(len(yy))] = ml
         wo = np.round(rng.rand(len(idx)) + 0.5, 2) if (sw is not None and rng.rand() < 0.3) else None
         setb = bool(rng.rand() < 0.4)
         ys = yy if yy is not None else y[idx]
@@ -195,7 +198,7 @@ def run_ops(desc):
     return {"status": "ok", "violations": viol, "nontrivial": bool(restart_after_pf or dup_unique),
             "nt_key": "%s|eus%d|w%d|%s" % (kind, eus, desc["weights"], [(o["op"], tuple(o["idx"])) for o in ops]),
             "cells": ["kind=%s" % kind], "monitors": contracts.drain_evals(), "counters": {"operations": len(ops)},
-            "observed": {"kind": kind, "enforce_unique": eus, "weights": desc["weights"], "n": n, "ops": ops[:10]}}
+            "observed": {"kind": kind, "enforce_unique": eus, "weights": desc["weights"], "n": n, "missing_label": repr(ml), "ops": ops[:10]}}
 
 
 def run_eer(desc):
